@@ -44,6 +44,9 @@ type CacheCfg struct {
 	Collide     bool     `json:"collide,omitempty"`   // every key hashes to the same bucket and meta byte
 	Hashes      []uint64 `json:"hashes,omitempty"`    // per-key hash override (index = key)
 	NoHandlers  bool     `json:"no_handlers,omitempty"`
+	// CancelledCtx: Get/BulkGet/Refresh are called with a context that is already cancelled (the cache passes the
+	// context through to the loader; it does not decide anything on it)
+	CancelledCtx bool `json:"cancelled_ctx,omitempty"`
 	SampleSize  uint64   `json:"sample_size,omitempty"`  // small-scope sample period of the hill climber (sequential runs only)
 	WeightShift uint     `json:"weight_shift,omitempty"` // weigher returns (value & 15) << shift: large, byte-size like weights
 	Procs       int      `json:"procs,omitempty"`        // what runtime.GOMAXPROCS(0) answers inside otter (fan-out of the parallel table copy)
@@ -635,6 +638,11 @@ func (r *Rig) Do(th int, op string) (res OpResult) {
 	}()
 	c := r.C
 	ctx := context.Background()
+	if r.Cfg.CancelledCtx {
+		cctx, cancel := context.WithCancel(ctx)
+		cancel()
+		ctx = cctx
+	}
 	switch f[0] {
 	case "set", "sia":
 		k, w := arg(1, 0), arg(2, 1)
@@ -888,6 +896,13 @@ func (r *Rig) Do(th int, op string) (res OpResult) {
 				res.List = append(res.List, e.Key)
 				break
 			}
+		}
+	case "allinv":
+		// the consumer mutates the cache inside the loop body: every yielded key is invalidated at once
+		res.List = []int{}
+		for k := range c.All() {
+			res.List = append(res.List, k)
+			c.Invalidate(k)
 		}
 	case "alladv", "keysadv", "coldestadv", "hottestadv":
 		// an iteration whose consumer lets time pass: after the first element the clock advances by the given amount;
